@@ -44,12 +44,28 @@ func isBoundaryFunc(fn *ssa.Function) bool {
 // handlerAbsorbs: for some type the recover handler asserts, its control flow ends in a normal return
 // (it turns that payload into a result); a handler that re-panics everything is no boundary.
 func handlerAbsorbs(h *ssa.Function) bool {
+	fns := []*ssa.Function{h}
 	for _, b := range h.Blocks {
 		for _, ins := range b.Instrs {
-			if ta, ok := ins.(*ssa.TypeAssert); ok && fromRecover(ta.X) {
-				for _, e := range simulateHandler(h, ta.AssertedType) {
-					if e.kind == "return" {
-						return true
+			if call, ok := ins.(*ssa.Call); ok {
+				if callee := call.Call.StaticCallee(); callee != nil && callee.Pkg == h.Pkg && len(callee.Blocks) > 0 {
+					for _, a := range call.Call.Args {
+						if fromRecover(a) {
+							fns = append(fns, callee)
+						}
+					}
+				}
+			}
+		}
+	}
+	for _, f := range fns {
+		for _, b := range f.Blocks {
+			for _, ins := range b.Instrs {
+				if ta, ok := ins.(*ssa.TypeAssert); ok && fromRecover(ta.X) {
+					for _, e := range simulateHandler(h, ta.AssertedType) {
+						if e.kind == "return" {
+							return true
+						}
 					}
 				}
 			}
@@ -132,6 +148,28 @@ func recoversExceptions(fn *ssa.Function) *ssa.Function {
 			if rec != nil && asserts {
 				return lit
 			}
+			// the type tests moved into a helper the literal hands the recovered value to: decide by simulation - a
+			// *exception is absorbed (some exit returns), a value of no named type is re-panicked on every exit
+			if rec != nil && fn.Pkg != nil {
+				if tn, ok := fn.Pkg.Pkg.Scope().Lookup("exception").(*types.TypeName); ok {
+					absorbs := false
+					for _, e := range simulateHandler(lit, types.NewPointer(tn.Type())) {
+						if e.kind == "return" {
+							absorbs = true
+						}
+					}
+					foreign := simulateHandler(lit, nil)
+					allPanic := len(foreign) > 0
+					for _, e := range foreign {
+						if e.kind == "return" {
+							allPanic = false
+						}
+					}
+					if absorbs && allPanic {
+						return lit
+					}
+				}
+			}
 		}
 	}
 	return nil
@@ -171,7 +209,7 @@ func (ea *escapeAnalysis) ownReason(fn *ssa.Function) string {
 		for _, ins := range b.Instrs {
 			switch x := ins.(type) {
 			case *ssa.Panic:
-				if ea.deadPanic[x] || ea.skipPanics || rePanicsOnly {
+				if ea.deadPanic[x] || ea.skipPanics || rePanicsOnly || isRepanicOfRecover(x) {
 					continue
 				}
 				if ea.ignoreStack && underScopeNonNil(x) {
